@@ -141,6 +141,32 @@ def _check_value_shapes(rng):
   return fails
 
 
+def _check_nonfinite_then_reset(rng):
+  """an epoch that saw inf / nan, then reset(): the statistics afterwards are those of the values since the reset only"""
+  from flax import nnx
+  import jax.numpy as jnp
+  x = (rng.randn(24) * 2.0 + 1.0).astype(np.float32)
+  ref_mean, ref_std = float(np.mean(x.astype(np.float64))), float(np.std(x.astype(np.float64)))
+  fails = []
+  for tag, bad in (('inf', np.array([1.0, np.inf, 2.0], np.float32)), ('-inf', np.array([-np.inf], np.float32)), ('nan', np.array([np.nan, 1.0], np.float32)), ('ordinary', np.array([5.0, 6.0], np.float32))):
+    for kind in ('Average', 'Welford', 'MultiMetric'):
+      m = {'Average': lambda: nnx.metrics.Average(), 'Welford': lambda: nnx.metrics.Welford(),
+           'MultiMetric': lambda: nnx.MultiMetric(avg=nnx.metrics.Average(), wf=nnx.metrics.Welford())}[kind]()
+      m.update(values=jnp.asarray(bad))
+      m.compute()
+      for rounds in (1, 2):
+        m.reset()
+        for part in (x[:7], x[7:]):
+          m.update(values=jnp.asarray(part))
+        out = m.compute()
+        got = float(out) if kind == 'Average' else (float(out.mean) if kind == 'Welford' else float(out['avg']))
+        std = None if kind == 'Average' else float((out if kind == 'Welford' else out['wf']).standard_deviation)
+        if not np.isfinite(got) or abs(got - ref_mean) > 2e-3 * max(1.0, abs(ref_mean)) or (std is not None and not (abs(std - ref_std) <= 2e-3 * max(1.0, ref_std))):
+          fails.append(dict(inputs=dict(metric=kind, before_reset=tag, resets=rounds), observed=f'after reset(): mean {got!r}, std {std!r}; the values since the reset have mean {ref_mean!r}, std {ref_std!r}', violated='since-last-reset'))
+          return fails
+  return fails
+
+
 def _stream(rng, n, drift):
   # with drift the batch means differ from the running mean (the between-batch term matters)
   x = rng.randn(n) * 1.8 + 0.7
@@ -175,6 +201,9 @@ def run(tier, seed):
     cases += 14
     fails += _check_value_shapes(np.random.RandomState(5 + seed))
   if not fails:
+    cases += 24
+    fails += _check_nonfinite_then_reset(np.random.RandomState(9 + seed))
+  if not fails:
     for n in (12, 64):
       for parts in _partitions(n, seed) + [[5, 5, 2][:3] if n == 12 else [30, 30, 4]]:
         for after_reset in (False, True):
@@ -186,11 +215,13 @@ def run(tier, seed):
           break
       if fails:
         break
-  return dict(name=NAME, cases=cases, distinct=len(distinct), bound='streams of 7..140000 float32 values x 5-8 partitions x fresh/after-reset; Accuracy (multi-class, thresholded, inside MultiMetric) on streams of 12 / 64 examples x 9 partitions (ragged) x fresh/after-reset; 24 values as python scalars / 0-d / 1-d / 2-d / 3-d update arrays',
+  return dict(name=NAME, cases=cases, distinct=len(distinct), bound='streams of 7..140000 float32 values x 5-8 partitions x fresh/after-reset; Accuracy (multi-class, thresholded, inside MultiMetric) on streams of 12 / 64 examples x 9 partitions (ragged) x fresh/after-reset; 24 values as python scalars / 0-d / 1-d / 2-d / 3-d update arrays; an epoch containing inf / -inf / nan followed by 1-2 resets and 24 finite values',
               failures=fails[:3], error=None)
 
 
 def replay(inputs):
+  if 'before_reset' in inputs:
+    return not _check_nonfinite_then_reset(np.random.RandomState(9))
   if 'value_shapes' in inputs:
     return not _check_value_shapes(np.random.RandomState(5))
   if str(inputs.get('metric', '')).startswith(('Accuracy', 'MultiMetric.loss')):
